@@ -21,7 +21,9 @@ use bitar::{
 
 async fn file_size(file: &mut File) -> Result<u64, std::io::Error> {
     file.seek(SeekFrom::Start(0)).await?;
-    file.seek(SeekFrom::End(0)).await
+    let size = file.seek(SeekFrom::End(0)).await?;
+    file.seek(SeekFrom::Start(0)).await?;
+    Ok(size)
 }
 
 async fn file_checksum(file: &mut File) -> Result<HashSum, std::io::Error> {
